@@ -1,5 +1,5 @@
 --------------------------- MODULE GinDynReg_Export ---------------------------
 EXTENDS MC_GinDynReg, Json
-ExportAll == PrintT(ToJson([doc |-> doc, skip |-> [mode |-> skip.mode, names |-> SetToSeq(skip.names)], status |-> Result.status, at |-> Result.at,
+ExportAll == PrintT(ToJson([doc |-> doc, prev |-> prev, skip |-> [mode |-> skip.mode, names |-> SetToSeq(skip.names)], status |-> Result.status, at |-> Result.at,
                             cfg |-> SetToSeq(Result.st.cfg), registry |-> SetToSeq(Result.st.registry)]))
 =============================================================================
